@@ -1,46 +1,5 @@
-(* GENERATED by tools/gotrans arithC07 from the Go sources; do not edit.
-   One definition per listed Go function; Proofs/ArithTieC07.v proves each equal to the hand-written model. *)
-From Coq Require Import ZArith Bool.
-From Elys Require Import Base.Res Base.Zdec Base.ZdecChk.
-Open Scope Z_scope.
-
-(* x/stablestake/keeper (Keeper).GetRedemptionRate, pure mode (range panics and division by zero are not modelled)
-     GetParams1_TotalValue : result of call 1 of (x/stablestake/keeper.Keeper).GetParams .TotalValue
-     GetSupply1_Amount : result of call 1 of (x/stablestake/types.BankKeeper).GetSupply .Amount *)
-Definition GetRedemptionRate (GetParams1_TotalValue : Z) (GetSupply1_Amount : Z) : Z :=
-  if (GetSupply1_Amount =? 0) then
-    0
-  else
-  (dquo (dec_of_int GetParams1_TotalValue) (dec_of_int GetSupply1_Amount)).
-
-(* x/stablestake/keeper (msgServer).Bond, pure mode (range panics and division by zero are not modelled)
-   slice: callarg:(x/stablestake/types.BankKeeper).MintCoins#1:2>github.com/cosmos/cosmos-sdk/types.NewCoins#0>github.com/cosmos/cosmos-sdk/types.NewCoin#1
-     msg_Amount : parameter msg .Amount
-     GetRedemptionRate1 : result of call 1 of (x/stablestake/keeper.Keeper).GetRedemptionRate *)
-Definition Bond_shareAmount (msg_Amount : Z) (GetRedemptionRate1 : Z) : Z :=
-  (round_int (dquo (dec_of_int msg_Amount) (if (GetRedemptionRate1 =? 0) then PREC else GetRedemptionRate1))).
-
-(* x/stablestake/keeper (msgServer).Unbond, pure mode (range panics and division by zero are not modelled)
-   slice: callarg:(x/stablestake/types.BankKeeper).SendCoinsFromModuleToAccount#1:3>github.com/cosmos/cosmos-sdk/types.NewCoin#1
-     msg_Amount : parameter msg .Amount
-     GetRedemptionRate1 : result of call 1 of (x/stablestake/keeper.Keeper).GetRedemptionRate *)
-Definition Unbond_redemptionAmount (msg_Amount : Z) (GetRedemptionRate1 : Z) : Z :=
-  (round_int (dmul (dec_of_int msg_Amount) GetRedemptionRate1)).
-
-(* x/stablestake/keeper (Keeper).Borrow, pure mode (range panics and division by zero are not modelled)
-   slice: guard:ErrMaxBorrowAmount
-     amount_Amount : parameter amount .Amount
-     GetParams1_TotalValue : result of call 1 of (x/stablestake/keeper.Keeper).GetParams .TotalValue
-     GetBalance1_Amount : result of call 1 of (x/stablestake/types.BankKeeper).GetBalance .Amount *)
-Definition Borrow_overCap (amount_Amount : Z) (GetParams1_TotalValue : Z) (GetBalance1_Amount : Z) : bool :=
-  ((dquo (dmul (dec_of_int GetParams1_TotalValue) (dec_of_int 9)) (dec_of_int 10)) <? ((dec_of_int (GetParams1_TotalValue - GetBalance1_Amount)) + (dec_of_int amount_Amount))).
-
-(* x/stablestake/keeper (Keeper).Repay, pure mode (range panics and division by zero are not modelled)
-   slice: guard:ErrNegativeBorrowed
-     amount_Amount : parameter amount .Amount
-     UpdateInterestAndGetDebt1_Borrowed : result of call 1 of (x/stablestake/keeper.Keeper).UpdateInterestAndGetDebt .Borrowed
-     UpdateInterestAndGetDebt1_InterestPaid : result of call 1 of (x/stablestake/keeper.Keeper).UpdateInterestAndGetDebt .InterestPaid
-     UpdateInterestAndGetDebt1_InterestStacked : result of call 1 of (x/stablestake/keeper.Keeper).UpdateInterestAndGetDebt .InterestStacked *)
-Definition Repay_negativeBorrowed (amount_Amount : Z) (UpdateInterestAndGetDebt1_Borrowed : Z) (UpdateInterestAndGetDebt1_InterestPaid : Z) (UpdateInterestAndGetDebt1_InterestStacked : Z) : bool :=
-  ((UpdateInterestAndGetDebt1_Borrowed - (amount_Amount - (if (amount_Amount <? (UpdateInterestAndGetDebt1_InterestStacked - UpdateInterestAndGetDebt1_InterestPaid)) then amount_Amount else (UpdateInterestAndGetDebt1_InterestStacked - UpdateInterestAndGetDebt1_InterestPaid)))) <? 0).
-
+(* gotrans failed on the current tree *)
+Definition handlers := gotrans_failed_on_the_current_tree_see_log.
+(* gotrans: arith C07: 1 function(s) outside the translator's scope:
+  x/stablestake/keeper/debt.go:200: x/stablestake/keeper.Borrow: target guard:ErrMaxBorrowAmount: 2 if statements return that error (want exactly 1)
+ *)
